@@ -856,8 +856,14 @@ func (m *Machine) sliceOp(in *ssa.Slice, x, lo, hi, max Value) Value {
 	case Str:
 		l := getI(lo, 0)
 		h := getI(hi, len(xv.S))
-		if h < 0 || h > len(xv.S) {
+		if h < 0 {
+			m.goPanicRuntime(fmt.Sprintf("slice bounds out of range [:%d]", h))
+		}
+		if h > len(xv.S) {
 			m.goPanicRuntime(fmt.Sprintf("slice bounds out of range [:%d] with length %d", h, len(xv.S)))
+		}
+		if l < 0 {
+			m.goPanicRuntime(fmt.Sprintf("slice bounds out of range [%d:]", l))
 		}
 		if l < 0 || l > h {
 			m.goPanicRuntime(fmt.Sprintf("slice bounds out of range [%d:%d]", l, h))
@@ -870,13 +876,19 @@ func (m *Machine) sliceOp(in *ssa.Slice, x, lo, hi, max Value) Value {
 		if max != nil && (mx < 0 || mx > xv.cap) {
 			m.goPanicRuntime(fmt.Sprintf("slice bounds out of range [::%d] with capacity %d", mx, xv.cap))
 		}
-		if h < 0 || h > mx {
+		if h < 0 {
+			m.goPanicRuntime(fmt.Sprintf("slice bounds out of range [:%d]", h))
+		}
+		if h > mx {
 			if max == nil {
 				m.goPanicRuntime(fmt.Sprintf("slice bounds out of range [:%d] with capacity %d", h, xv.cap))
 			}
 			m.goPanicRuntime(fmt.Sprintf("slice bounds out of range [:%d:%d]", h, mx))
 		}
-		if l < 0 || l > h {
+		if l < 0 {
+			m.goPanicRuntime(fmt.Sprintf("slice bounds out of range [%d:]", l))
+		}
+		if l > h {
 			m.goPanicRuntime(fmt.Sprintf("slice bounds out of range [%d:%d]", l, h))
 		}
 		if xv.o == nil {
@@ -905,7 +917,10 @@ func (m *Machine) sliceOp(in *ssa.Slice, x, lo, hi, max Value) Value {
 func (m *Machine) checkIndex(idx BV, n int) int {
 	if idx.T == nil {
 		i := idx.sval()
-		if i < 0 || i >= int64(n) {
+		if i < 0 {
+			m.goPanicRuntime(fmt.Sprintf("index out of range [%d]", i))
+		}
+		if i >= int64(n) {
 			m.goPanicRuntime(fmt.Sprintf("index out of range [%d] with length %d", i, n))
 		}
 		return int(i)
@@ -913,6 +928,9 @@ func (m *Machine) checkIndex(idx BV, n int) int {
 	inb := m.fromTerm(m.tc.Cmp(OpUlt, idx.T, m.tc.Const(uint16(idx.W), uint64(n)))).(BoolV)
 	if !m.branch(inb, "index-bounds") {
 		v := m.concretize(idx, "index-oob")
+		if sext(v, uint16(idx.W)) < 0 {
+			m.goPanicRuntime(fmt.Sprintf("index out of range [%d]", sext(v, uint16(idx.W))))
+		}
 		m.goPanicRuntime(fmt.Sprintf("index out of range [%d] with length %d", sext(v, uint16(idx.W)), n))
 	}
 	return int(m.concretize(idx, "index"))
